@@ -49,6 +49,8 @@ def run(ctx):
     for _ in range(n_cases):
         combos.append((rng.choice(secrets), rng.choice(nets) if rng.random() < 0.5 else 'bitcoin', rng.random() < 0.6, rng.choice(passes)))
     combos.append((rng.choice(secrets), 'bitcoin', False, 'ϓ\x00𐐀💩'[:1] + '́' + '\x00𐐀💩'))     # BIP38 unicode vector style (combining)
+    combos.append((rng.choice(secrets), rng.choice(nets), rng.random() < 0.5, ''))                  # the empty passphrase is a passphrase
+    combos.append((rng.choice(secrets), 'bitcoin', True, rng.choice([' ', '0', '\x00'])))
     for d, net, comp, pw in combos:
         ah_line = run_driver(['bip38_addrhash %s %d %d' % (net, d, 1 if comp else 0)])[0].split(' | ')[0]
         addrhash = bytes.fromhex(ah_line.split(' ')[0])
@@ -146,7 +148,7 @@ def run(ctx):
     patterns = [1, 0, 2, 3]
     ec_nets = ['bitcoin', 'bitcoin', 'bitcoin', 'litecoin', 'testnet', 'dogecoin']
     for trial in range(16 if T else 6):
-        pw = rng.choice(passes[:4])
+        pw = rng.choice(passes[:4]) if trial != 1 else ''
         ec_net = ec_nets[trial % len(ec_nets)] if trial < len(ec_nets) else rng.choice(ec_nets)
         # every combination of (lot/sequence given, compressed) - the flag byte is 0x20 / 0x00 / 0x24 / 0x04 (BIP38)
         with_lot, comp = combos[trial % 4]
